@@ -330,6 +330,174 @@ pub fn oracle_answer(caps: &TerminalCaps, c: RGBA) -> Option<u64> {
     }
 }
 
+// ------------------------------------------------------------------ a writer that fails
+
+/// accepts `budget` more bytes, then every write is an io::Error
+struct BudgetWriter {
+    buf: Vec<u8>,
+    budget: usize,
+}
+impl std::io::Write for BudgetWriter {
+    fn write(&mut self, data: &[u8]) -> std::io::Result<usize> {
+        if data.is_empty() {
+            return Ok(0);
+        }
+        if self.budget == 0 {
+            return Err(std::io::Error::new(std::io::ErrorKind::Other, "budget exhausted"));
+        }
+        let n = self.budget.min(data.len());
+        self.buf.extend_from_slice(&data[..n]);
+        self.budget -= n;
+        Ok(n)
+    }
+    fn flush(&mut self) -> std::io::Result<()> {
+        Ok(())
+    }
+}
+
+/// ONE encoder object: `x` into a writer with budget k, then `ys` into a healthy writer.
+fn run_failwrite(input: &Value) -> Case {
+    let caps = caps_of(&input["caps"]);
+    let k = input["k"].as_u64().unwrap_or(0) as usize;
+    let (x, coq_x, mut colors) = build(&input["x"]);
+    let ys_v: Vec<Value> = input["ys"].as_array().cloned().unwrap_or_default();
+    let mut ys = vec![];
+    let mut coq_ys = vec![];
+    for y in &ys_v {
+        let (c, q, cs) = build(y);
+        ys.push(c);
+        coq_ys.push(q);
+        colors.extend(cs);
+    }
+    let mut oracle = vec![];
+    let mut seen: Vec<RGBA> = vec![];
+    if caps.depth != ColorDepth::TrueColor {
+        for c in &colors {
+            if !seen.contains(c) {
+                seen.push(*c);
+                if let Some(i) = oracle_answer(&caps, *c) {
+                    oracle.push(format!("({}, {})", coq_rgba(*c), i));
+                }
+            }
+        }
+    }
+    let caps2 = caps.clone();
+    let res = catch(move || {
+        let mut enc = TTYEncoder::new(caps2);
+        let mut w = BudgetWriter { buf: vec![], budget: k };
+        let ok = enc.encode(&mut w, x).is_ok();
+        let mut out = Vec::new();
+        let mut follow_ok = true;
+        for y in ys {
+            if enc.encode(&mut out, y).is_err() {
+                follow_ok = false;
+            }
+        }
+        (w.buf, ok, if follow_ok { Some(out) } else { None })
+    });
+    let depth = input["caps"]["depth"].as_str().unwrap_or("true");
+    let (failed, ok, follow) = res.clone().unwrap_or((vec![], true, None));
+    let coq = format!(
+        "FailWrite (mkCaps {} {} {}) {} {} {} {} {} {} {}",
+        coq_depth(depth),
+        cbool(caps.glyphs),
+        cbool(caps.kitty_keyboard),
+        coq_x,
+        k,
+        clist(coq_ys),
+        clist(oracle),
+        cbytes(&failed),
+        cbool(ok && res.is_some()),
+        copt(follow.as_ref().map(|b| cbytes(b)))
+    );
+    let mut j = input.clone();
+    j["impl"] = match &res {
+        Some((f, ok, fo)) => json!({"delivered": String::from_utf8_lossy(f), "ok": ok, "later": fo.as_ref().map(|b| String::from_utf8_lossy(b).to_string())}),
+        None => json!("panic"),
+    };
+    Case {
+        coq,
+        json: j,
+        tags: vec!["cmd=FailWrite".to_string(), format!("failed={}", !ok), format!("x={}", input["x"]["t"].as_str().unwrap_or("?"))],
+        nontrivial: !ok,
+    }
+}
+
+/// every prefix length of the encoding of each command that uses encoder-private state (the SGR arms)
+/// and of a few others, followed by modifications that would show anything left behind
+fn failwrite_cases(rng: &mut Rng, thorough: bool, v: &mut Vec<Value>) {
+    let red = json!([255, 0, 0, 255]);
+    let fm = |reset: bool, fg: Value, bold: Value, ul: Value| {
+        json!({"t": "FaceModify", "reset": reset, "fg": fg, "bg": null, "underline": ul, "ucolor": null,
+               "bold": bold, "italic": null, "blink": null, "strike": null})
+    };
+    let xs = vec![
+        json!({"t": "Face", "fg": red, "bg": null, "bits": 24}),
+        json!({"t": "Face", "fg": null, "bg": color_pool(rng), "bits": 3 + 8 + 128}),
+        json!({"t": "Face", "fg": null, "bg": null, "bits": 0}),
+        fm(true, red.clone(), json!(true), json!("UCurly")),
+        fm(false, Value::Null, json!(false), Value::Null),
+        fm(false, color_pool(rng), Value::Null, json!("UNone")),
+        json!({"t": "DecModeSet", "enable": true, "mode": "AltScreen"}),
+        json!({"t": "DecModeSet", "enable": false, "mode": "AltScreen"}),
+        json!({"t": "KeyboardLevel", "level": "5"}),
+        json!({"t": "CursorTo", "row": "12", "col": "345"}),
+        json!({"t": "CursorMove", "row": "-3", "col": "4"}),
+        json!({"t": "Title", "title": "ab"}),
+        json!({"t": "Termcap", "names": ["TN", "Co"]}),
+        json!({"t": "Color", "name": {"palette": "1"}, "color": [1, 2, 3, 255]}),
+    ];
+    let empty = fm(false, Value::Null, Value::Null, Value::Null);
+    let bold = fm(false, Value::Null, json!(true), Value::Null);
+    let later: Vec<Vec<Value>> = vec![
+        vec![empty.clone(), bold.clone()],
+        vec![bold.clone(), empty.clone(), json!({"t": "KeyboardLevel", "level": "5"})],
+        vec![fm(false, color_pool(rng), Value::Null, json!("UDashed")), json!({"t": "Face", "fg": null, "bg": null, "bits": 16})],
+        vec![json!({"t": "DecModeSet", "enable": true, "mode": "AltScreen"}), empty.clone(), json!({"t": "CursorTo", "row": "0", "col": "0"})],
+    ];
+    for (i, depth) in DEPTHS.iter().enumerate() {
+        let caps_v = caps_json(depth, true, false);
+        let caps = caps_of(&caps_v);
+        for (j, x) in xs.iter().enumerate() {
+            let len = encode_bytes(&caps, build(x).0).map(|b| b.len()).unwrap_or(0);
+            // budgets 0 ..= len (len = the whole command fits); under the two reduced depths every other budget in quick
+            for k in 0..=len {
+                if !thorough && i > 0 && (k + j) % 2 == 1 {
+                    continue;
+                }
+                let ys = &later[(k + j) % later.len()];
+                v.push(json!({"kind": "failwrite", "caps": caps_v, "x": x, "k": k, "ys": ys}));
+            }
+        }
+    }
+    // random: any command, any budget, random later commands
+    for _ in 0..(if thorough { 3000 } else { 200 }) {
+        let caps_v = rand_caps(rng);
+        let x = loop {
+            let c = rand_cmd(rng);
+            if c["t"] != "Raw" {
+                break c;
+            }
+        };
+        let len = encode_bytes(&caps_of(&caps_v), build(&x).0).map(|b| b.len()).unwrap_or(0);
+        let k = rng.below(len as u64 + 2);
+        let n = 1 + rng.below(3);
+        let ys: Vec<Value> = (0..n)
+            .map(|_| match rng.below(4) {
+                0 => empty.clone(),
+                1 => bold.clone(),
+                _ => loop {
+                    let c = rand_cmd(rng);
+                    if c["t"] != "Raw" {
+                        break c;
+                    }
+                },
+            })
+            .collect();
+        v.push(json!({"kind": "failwrite", "caps": caps_v, "x": x, "k": k, "ys": ys}));
+    }
+}
+
 // ------------------------------------------------------------------ renderer sessions (C05 o C01)
 
 /// a Terminal that records the commands the renderer issues
@@ -618,6 +786,9 @@ pub fn run(input: &Value) -> Case {
     if input["kind"] == "session" {
         return run_session(input);
     }
+    if input["kind"] == "failwrite" {
+        return run_failwrite(input);
+    }
     let caps = caps_of(&input["caps"]);
     let stream = input.get("cmds").and_then(|v| v.as_array()).cloned();
     let cmd_values: Vec<Value> = match &stream {
@@ -709,7 +880,21 @@ pub fn run(input: &Value) -> Case {
 
 // ------------------------------------------------------------------ generators
 
+thread_local! {
+    /// integer constants written in the encoder / terminal sources right now, with their neighbours:
+    /// a threshold a change introduces is aimed at without knowing it in advance
+    static BOUNDS: Vec<u64> = source_boundaries(&["src/encoder.rs", "src/terminal.rs", "src/face.rs"], u64::MAX);
+}
+fn source_bound(rng: &mut Rng) -> Option<u64> {
+    BOUNDS.with(|b| if b.is_empty() { None } else { Some(b[rng.below(b.len() as u64) as usize]) })
+}
+
 fn usize_pool(rng: &mut Rng) -> String {
+    if rng.chance(1, 6) {
+        if let Some(v) = source_bound(rng) {
+            return v.to_string();
+        }
+    }
     let m = usize::MAX as u128;
     let cands: [u128; 24] = [
         0, 1, 2, 8, 9, 10, 11, 99, 100, 255, 256, 999, 1000, 65535, 65536, (1 << 31) - 1, 1 << 31, (1 << 32) - 1, 1 << 32,
@@ -723,6 +908,12 @@ fn usize_pool(rng: &mut Rng) -> String {
     }
 }
 fn i32_pool(rng: &mut Rng) -> String {
+    if rng.chance(1, 6) {
+        if let Some(v) = source_bound(rng) {
+            let v = (v.min(i32::MAX as u64)) as i64;
+            return (if rng.chance(1, 2) { v } else { -v }).to_string();
+        }
+    }
     let cands: [i64; 20] = [
         i32::MIN as i64, i32::MIN as i64 + 1, -65536, -1000, -100, -10, -9, -2, -1, 0, 1, 2, 9, 10, 100, 1000, 65536,
         i32::MAX as i64 - 1, i32::MAX as i64, 0,
@@ -1063,6 +1254,8 @@ pub fn generate(rng: &mut Rng, n: usize, tier: &str) -> Vec<Value> {
     v.push(json!({"caps": caps, "cmd": {"t": "Termcap", "names": ["\u{e9}\u{20ac}\u{1f600}", "TN"]}}));
     // (e2) repetitions of stateful commands through one encoder object
     repeat_streams(rng, if thorough { 4000 } else { 300 }, &mut v);
+    // (e2b) one encoder object whose writer fails after k bytes, then healthy writes
+    failwrite_cases(rng, thorough, &mut v);
     // (e3) renderer sessions: the real TerminalRenderer's commands, encoded, interpreted on C01's screen
     for _ in 0..(if thorough { 1500 } else { 120 }) {
         v.push(gen_session(rng));
